@@ -355,6 +355,35 @@ class CallGraph:
             self.envs[k] = TypeEnv(self.res, fn, self_cls)
         return self.envs[k]
 
+    def _function_values(self, fn: FunctionInfo) -> List[FunctionInfo]:
+        cache = self.__dict__.setdefault("_fn_values", {})
+        if fn in cache:
+            return cache[fn]
+        out: List[FunctionInfo] = []
+        seen_consts = set()
+
+        def scan(node, module, depth=0):
+            for m in ast.walk(node):
+                if isinstance(m, ast.Name) and isinstance(m.ctx, ast.Load):
+                    tgt = self.model.lookup_symbol(module, m.id)
+                    if isinstance(tgt, FunctionInfo) and tgt is not fn and tgt not in out:
+                        out.append(tgt)
+                    elif isinstance(tgt, tuple) and tgt[0] == "const" and id(tgt[1]) not in seen_consts and depth < 3:
+                        seen_consts.add(id(tgt[1]))
+                        scan(tgt[1], tgt[2], depth + 1)
+        # names in call position are ordinary calls; only value positions matter, but scanning all loads is a harmless superset restricted below
+        called = {id(c.func) for c in ast.walk(fn.node) if isinstance(c, ast.Call)}
+        for m in ast.walk(fn.node):
+            if isinstance(m, ast.Name) and isinstance(m.ctx, ast.Load) and id(m) not in called:
+                tgt = self.model.lookup_symbol(fn.module, m.id)
+                if isinstance(tgt, FunctionInfo) and tgt is not fn and tgt not in out:
+                    out.append(tgt)
+                elif isinstance(tgt, tuple) and tgt[0] == "const" and id(tgt[1]) not in seen_consts:
+                    seen_consts.add(id(tgt[1]))
+                    scan(tgt[1], tgt[2], 1)
+        cache[fn] = out
+        return out
+
     def call_sites(self, fn: FunctionInfo) -> List[CallSite]:
         if fn in self.sites:
             return self.sites[fn]
@@ -379,7 +408,14 @@ class CallGraph:
                 f = n.func
                 if isinstance(f, ast.Name):
                     if f.id in env.env:
-                        res.stats["unresolved"] += 1
+                        # a call through a local name (``for kind, resolve in TABLE: resolve(self, d)``): every package function whose value this function
+                        # can get hold of -- named in its body or in a module-level constant it reads -- may be the callee (address-taken over-approximation)
+                        cands = self._function_values(fn)
+                        if cands:
+                            out.append(CallSite(n, f.id, cands, None, "indirect"))
+                            res.stats["resolved"] += 1
+                        else:
+                            res.stats["unresolved"] += 1
                         continue
                     tgt = self.model.lookup_symbol(fn.module, f.id)
                     if isinstance(tgt, FunctionInfo):
@@ -388,6 +424,10 @@ class CallGraph:
                     elif isinstance(tgt, ClassInfo):
                         callees = [x for x in (tgt.resolve("__init__"), tgt.resolve("__post_init__")) if x is not None]
                         out.append(CallSite(n, f.id, callees, None, "constructor"))
+                        res.stats["resolved"] += 1
+                    elif tgt is None and any(isinstance(m_, ast.Name) and m_.id == f.id and isinstance(m_.ctx, ast.Store) for m_ in ast.walk(fn.node)) and self._function_values(fn):
+                        # a local name bound in this function (loop target, unpacking) and called: see above
+                        out.append(CallSite(n, f.id, self._function_values(fn), None, "indirect"))
                         res.stats["resolved"] += 1
                     else:
                         res.stats["external"] += 1
